@@ -56,3 +56,11 @@ Example c05_pinned_refuted :
     | _ => False
     end.
 Proof. exists (set_count ex_h 30), ex_r1. vm_compute. repeat split. Qed.
+
+(* the widths the model decodes the header and the records with ARE the field widths of the Go structs
+   PacketNetFlowV5 / RecordsNetFlowV5 (Spec/DocTable.v v5_header_layout / v5_record_layout, regenerated from
+   decoders/netflowlegacy/packet.go on every build), in declaration order *)
+From GF Require Import Spec.DocCheck2.
+Theorem c05_layout_is_the_go_struct : v5_layout_ok = true.
+Proof. vm_compute. reflexivity. Qed.
+Print Assumptions c05_layout_is_the_go_struct.
